@@ -74,14 +74,15 @@ def execute(case):
                 last_life[wname] = ev
         seen[0] = len(evs)
 
-    orphaned = set()     # watchers removed with nostop: their workers are
-                         # deliberately left alone and no longer reported
+    orphaned = set()     # pids of watchers removed with nostop: deliberately
+                         # left alone and no longer reported
 
     def on_op(h_, i, op):
         if op[0] == 'req' and op[1] == 'rm' and op[2].get("nostop"):
             rep = h_.reqs[i].reply()
             if rep is None or rep.get("status") == "ok":
-                orphaned.add(op[2].get("name"))
+                orphaned.update(p.pid for p in k.procs.values()
+                                if p.owner == op[2].get("name"))
         consume()
 
     try:
@@ -105,7 +106,7 @@ def execute(case):
                             'for %s never had a spawn event' % (pid, name)))
             # reconstruction
             def kept(p):
-                return k.procs[p].owner not in orphaned
+                return p not in orphaned
             recon = sorted(p for p in spawned
                            if p not in reaped and p not in killed and
                            kept(p))
@@ -131,7 +132,7 @@ def execute(case):
                 pid = d["pid"]
                 if k.procs[pid].kind != 'worker' or pid not in spawned:
                     continue
-                if k.procs[pid].owner in orphaned:
+                if pid in orphaned:
                     continue
                 if pid in kill_time and kill_time[pid] <= d["t"] + 1e-9:
                     continue      # supervisor was already terminating it
